@@ -6,7 +6,7 @@
    inside a transaction. *)
 From Coq Require Import ZArith List Bool.
 From Model Require Import PyBase Cache.
-From Proofs Require Import CacheProofs CacheWf CacheCopy CacheCoh CacheWorld CacheUnion CacheTheorems CacheUsable CacheExamples CacheTxn CacheFresh CacheFreshOps CacheFreshWorld CacheFreshUnion CacheFreshSplit CacheInj CacheInjOps CacheInjWorld CacheFreshPatch CacheFreshFull CacheStereo.
+From Proofs Require Import CacheProofs CacheWf CacheCopy CacheCoh CacheWorld CacheUnion CacheTheorems CacheUsable CacheExamples CacheTxn CacheFresh CacheFreshOps CacheFreshWorld CacheFreshUnion CacheFreshSplit CacheInj CacheInjOps CacheInjWorld CacheFreshPatch CacheFreshFull CacheStereo CacheTie CacheUsable2 CacheCopyTotal CacheUsable3.
 Import ListNotations.
 Open Scope Z_scope.
 
@@ -254,3 +254,31 @@ Theorem C13_fix_stereo_local_nonvacuous : forall C v v' l l', closedv v C -> clo
   forall n, In n C -> four_nbrs v l n = four_nbrs v' l' n.
 Proof. exact four_nbrs_local. Qed.
 Print Assumptions C13_fix_stereo_local_nonvacuous.
+
+(* ---- tie of the hand-copied constants: coq/gen/CacheTables.v is regenerated from /repo's source on every run by tools/gen_cache.py
+   (valid bond orders of Bond.__init__, the bounds of the charge setter, the names kept by flush_cache / copy under keep_sssr /
+   keep_components, the order compared with `bond` in add_bond / delete_atom / delete_bond, the flags of the backup copy in
+   __enter__, the charge bound and the keep_sssr condition of __standardize, which cached ring property reads which); the model
+   agrees with all of them *)
+Theorem C13_source_constants_tie : tie_orders && tie_charge && tie_kept && tie_special && tie_reads = true.
+Proof. exact source_constants_tie. Qed.
+Print Assumptions C13_source_constants_tie.
+
+(* ---- "as editable as its source": on the current molecule of ANY state satisfying W (a molecule after a rollback, a copy, a
+   substructure, a union, a split part ...) the mutators raise nothing for valid arguments, inside and outside a transaction
+   (add_atom: outside; inside it cannot fail either but that is not stated) *)
+Theorem C13_editable : forall s, W s ->
+  (forall c, o_backup (s_cur s) = None -> snd (step s (OAddAtom c None)) = None) /\
+  (forall n m ord, valid_order ord = true -> n <> m -> In n (keys (o_atoms (s_cur s))) -> In m (keys (o_atoms (s_cur s))) ->
+                   slot_of (s_cur s) m n = None -> snd (step s (OAddBond n m ord)) = None) /\
+  (forall n, In n (keys (o_atoms (s_cur s))) -> snd (step s (ODelAtom n)) = None) /\
+  (forall n m, slot_of (s_cur s) n m <> None -> snd (step s (ODelBond n m)) = None).
+Proof. exact editable. Qed.
+Print Assumptions C13_editable.
+
+(* copy() and `with mol:` succeed on every settled molecule: the labels and ring marks they read are there (freshness invariant) and
+   the copy loop never fails on a symmetric adjacency *)
+Theorem C13_copy_enter_total : forall s, FW s -> o_backup (s_cur s) = None ->
+  snd (step s OCopy) = None /\ snd (step s OEnter) = None.
+Proof. exact copy_enter_total. Qed.
+Print Assumptions C13_copy_enter_total.
